@@ -575,9 +575,9 @@ func runC12(r *mon.Run) {
 		bad := o.Res.FullString() == "98121216269289733573027380520946711124E-37"
 		return bad, fmt.Sprintf("Ln(%s) at %s returned %s, 1.02 units above the exact value 9.81212162692897335730273805209467111229...", x, c, o.Res)
 	})
-	r.Parallel("transcendental", r.N(30000, 3000000), func(t *mon.T) { transRandomCase(t, "value") })
-	r.Parallel("range-edge", r.N(8000, 600000), func(t *mon.T) { rangeEdgeCase(t, "value") })
-	r.Parallel("exp-long-argument", r.N(6000, 300000), func(t *mon.T) {
+	r.Parallel("transcendental", r.N(20000, 3000000), func(t *mon.T) { transRandomCase(t, "value") })
+	r.Parallel("range-edge", r.N(6000, 600000), func(t *mon.T) { rangeEdgeCase(t, "value") })
+	r.Parallel("exp-long-argument", r.N(4000, 300000), func(t *mon.T) {
 		// arguments with more digits than the precision (fixed defect: the argument was rounded first)
 		c := transContext(t.Rng)
 		if c.P > 12 {
